@@ -1,10 +1,11 @@
-(* C28  A link is encrypted only with a key supplied for it.  Statements only; proofs in LL/LLProofsC28.v.
+(* C28  A link is encrypted only with a key supplied for it.  Statements only; proofs in LL/LLProofsC28.v and
+   LL/LLProofsC28Air.v.
    Model: LL/LLModel.v (link_layer_security_impl AFTER the repair fix/C28-start-enc-rsp-state), specification and monitor:
    LL/LLSpecC28.v.  All theorems quantify over EVERY configuration and EVERY list of operations (any length): connect
    requests, connection events with any number of any PDUs (LL_ENC_REQ / LL_START_ENC_RSP / LL_PAUSE_ENC_REQ / LL_PAUSE_ENC_RSP
    in any order, every other control PDU, ATT traffic), missed events, disconnect(), the key store's answer, API calls.
    [no_crash]: no operation of the history ends in a failing assert (OCrash; crash freedom is C22's subject). *)
-From BT Require Import Base.ListX LL.LLModel LL.LLSpec LL.LLSpecC28 LL.LLProofsC28.
+From BT Require Import Base.ListX LL.LLModel LL.LLSpec LL.LLSpecC28 LL.LLProofsC28 LL.LLProofsC28Air.
 From BT Require gen.GenLL.
 Import ListNotations.
 Local Open Scope N_scope.
@@ -19,11 +20,22 @@ Theorem C28_encrypted_only_with_key :
 Proof. exact encrypted_only_with_key. Qed.
 Print Assumptions C28_encrypted_only_with_key.
 
-(* The monitor's decision clauses accept every model trace: never enc:t+ without a pending request with a known key
-   (encrypted_without_key), never before LL_START_ENC_REQ was sent or after a pause that followed it
-   (encrypted_without_start_enc_req), never LL_START_ENC_REQ for an unknown key (unknown_key_not_rejected) or without a
-   request (start_enc_req_unrequested), never still encrypted after disconnect() or at the end of the link
-   (pause_keeps_encrypted). *)
+(* THE MAIN THEOREM: the complete specification monitor accepts every trace of the model. Decision clauses: never enc:t+
+   without a pending request with a known key (encrypted_without_key), never before LL_START_ENC_REQ was sent or after a
+   pause that followed it (encrypted_without_start_enc_req), never LL_START_ENC_REQ for an unknown key
+   (unknown_key_not_rejected) or without a request (start_enc_req_unrequested), never still encrypted after disconnect()
+   or at the end of the link (pause_keeps_encrypted). On-air clauses: LL_START_ENC_REQ on air only when one is due; an
+   LL_ENC_REQ for an unknown key is answered with LL_REJECT_(EXT_)IND( pin or key missing ) in the next connection event
+   (unless the link ends or disconnect() was called); LL_PAUSE_ENC_RSP is on air only while the link is unencrypted; the
+   value of the protected characteristic is on air only if the link was encrypted during the connection event that
+   queued it (protected_readable_unencrypted / pause_keeps_encrypted). *)
+Theorem C28_monitor_accepts_all :
+  forall (c : cfg) (ops : list lop),
+    no_crash (lrun c (linit c) ops) -> accepts28 c (lrun c (linit c) ops).
+Proof. exact monitor_accepts_all. Qed.
+Print Assumptions C28_monitor_accepts_all.
+
+(* its decision part alone (no reasoning about the transmit queue) *)
 Theorem C28_monitor_accepts_decisions :
   forall (c : cfg) (ops : list lop),
     no_crash (lrun c (linit c) ops) -> accepts28_core c (lrun c (linit c) ops).
@@ -48,12 +60,12 @@ Theorem C28_step :
 Proof. exact step_ok. Qed.
 Print Assumptions C28_step.
 
-(* NOT PROVED (stated only; judged on every implementation trace of every run, and by the Examples below): the complete
-   monitor, i.e. with the on-air clauses - LL_START_ENC_REQ on air only when one is due, the reject for an unknown key on
-   air in the next connection event, LL_PAUSE_ENC_RSP only on an unencrypted link, the protected value on air only if
-   the link was encrypted during the event that queued it - accepts every model trace. What is missing is the invariant
-   that relates the model's transmit queue to the monitor's bookkeeping. *)
-Definition C28_monitor_accepts_full : Prop := monitor28_accepts_full.
+(* the two simulation steps of the inductions: decisions, and decisions + transmit queue *)
+Theorem C28_step_on_air :
+  forall c s m o s' r, R c s m -> TB c s m -> lstep c s o = (s', r) -> r <> OCrash ->
+    exists m', mstep28g true c m o r = (Ok, m') /\ R c s' m' /\ TB c s' m'.
+Proof. exact step_air. Qed.
+Print Assumptions C28_step_on_air.
 
 (* ---- non-vacuity: a session that starts encryption properly, reads the protected value, pauses, is refused the value,
    is rejected for an unknown key, disconnects - accepted by the COMPLETE monitor; the hypothesis no_crash holds of it;
